@@ -33,7 +33,8 @@ Base == << BEntry("X", K0, 0, 1, TRUE, FALSE), BEntry("S", K0, 0, 1, FALSE, FALS
            BEntry("U3", <<1, 1, 2>>, 3, 1, FALSE, FALSE), BEntry("CNOT", K0, 0, 2, TRUE, FALSE), BEntry("ISWAP", K0, 0, 2, FALSE, FALSE),
            BEntry("A1", K0, 0, 1, FALSE, TRUE), BEntry("A2", K0, 0, 2, FALSE, TRUE), BEntry("H", K0, 0, 1, TRUE, FALSE),
            BEntry("GPi", <<1, 0, 0>>, 1, 1, TRUE, FALSE), BEntry("XX", <<1, 0, 0>>, 1, 2, FALSE, FALSE),
-           BEntry("I", K0, 0, 1, TRUE, FALSE) >>
+           BEntry("I", K0, 0, 1, TRUE, FALSE),
+           BEntry("XY", <<1, 0, 0>>, 1, 2, FALSE, FALSE), BEntry("CPHASE", <<1, 0, 0>>, 1, 2, FALSE, FALSE), BEntry("YY", <<1, 0, 0>>, 1, 2, FALSE, FALSE) >>   \* complex-symmetric but NOT hermitian
 BaseMat(g) == IF Base[g].custom THEN (IF Base[g].name = "A1" THEN A1 ELSE A2) ELSE GateAt(Base[g].name, Base[g].k)
 GMTab == TLCEval([g \in 1..Len(Base) |-> BaseMat(g)])
 \* replacing the parameters: the same gate at other grid angles (k2)
